@@ -476,6 +476,11 @@ impl Trace {
 }
 
 pub fn tokenize(run: &RunOut) -> Result<Trace, String> {
+    tokenize_opt(run, false)
+}
+
+/// `managed_refs`: also intern the path lists of the `.managed.json` payloads (C10's R1–R3)
+pub fn tokenize_opt(run: &RunOut, managed_refs: bool) -> Result<Trace, String> {
     let mut t = Trace {
         toks: vec![],
         src: vec![],
@@ -542,6 +547,10 @@ pub fn tokenize(run: &RunOut) -> Result<Trace, String> {
                             let (opstamp, files) = meta_refs(data)?;
                             let refs: Vec<String> = files.iter().map(|f| t.id(f).to_string()).collect();
                             format!("a{p}:{opstamp}:{i}:{}:{}", data.len(), if refs.is_empty() { "-".into() } else { refs.join(".") })
+                        } else if managed_refs && r.path == MANAGED {
+                            let list: Vec<String> = serde_json::from_slice(data).map_err(|e| format!(".managed.json payload: {e}"))?;
+                            let refs: Vec<String> = list.iter().map(|f| t.id(f).to_string()).collect();
+                            format!("a{p}:0:{i}:{}:{}", data.len(), if refs.is_empty() { "-".into() } else { refs.join(".") })
                         } else {
                             format!("a{p}:0:{i}:{}:-", data.len())
                         }
